@@ -24,13 +24,17 @@ BOUNDS = {
 ASSUMPTIONS = ["ensemble members are real numbers (not NaN) where the PIT / CDF oracles need a count of members",
                "expandverif: input times are whole hours, lead times whole hours"]
 STUBS = ["verif.input.get_input -> in-memory input", "netCDF4.Dataset -> write recorder",
-         "scipy.signal.convolve(a, ones, 'valid') -> sliding sum model; scipy.interpolate.interp1d(kind='zero') -> step-function model (engine only)"]
+         "scipy.signal.convolve(a, ones, 'valid', method='direct') -> sliding sum model (the method argument is recorded in both modes); scipy.interpolate.interp1d(kind='zero') -> step-function model (engine only)"]
+
+
+CONVOLVE_METHODS = []     # the `method` argument of every scipy.signal.convolve call of the current run (both modes)
 
 
 class _Signal(object):
     @staticmethod
-    def convolve(array, c, mode):
+    def convolve(array, c, mode, method="auto"):
         from symx.arrays import sa, to_obj, elem_apply
+        CONVOLVE_METHODS.append(method)
         if mode != "valid":
             raise load_unsupported("convolve mode %s" % mode)
         a = to_obj(array)
@@ -84,6 +88,25 @@ class _Scipy(object):
     interpolate = _Interp()
 
 
+class _ScipyRecording(object):
+    """Concrete replay: the real SciPy; only the `method` argument of signal.convolve is recorded."""
+    def __init__(self, real):
+        self._real = real
+        outer = self
+
+        class Sig(object):
+            def convolve(self, array, c, mode="full", method="auto"):
+                CONVOLVE_METHODS.append(method)
+                return real.signal.convolve(array, c, mode, method)
+
+            def __getattr__(self, name):
+                return getattr(real.signal, name)
+        self.signal = Sig()
+
+    def __getattr__(self, name):
+        return getattr(self._real, name)
+
+
 def run_script(S, name, argv, src):
     script = load.load_script(name)
     inp = load.modules["verif.input"]
@@ -99,8 +122,11 @@ def run_script(S, name, argv, src):
     script.netCDF4 = NC
     inp.get_input = lambda f: src
     sys.argv = list(argv)
+    del CONVOLVE_METHODS[:]
     if S.symbolic and "scipy" in script.__dict__:
         script.scipy = _Scipy()
+    elif "scipy" in script.__dict__:
+        script.scipy = _ScipyRecording(saved[3])
     code = None
     try:
         script.main()
@@ -166,6 +192,13 @@ def h_accumulate(shape_lead, shape_time):
         if code is not None:
             return
         check_preserved(S, out, meta)
+        if w is not None and w > 1 and not ignore:
+            # One documented fact about SciPy: signal.convolve(method='auto') switches to the FFT when it estimates it
+            # to be faster (e.g. 20 x 50 x 10 values, window 24), and the FFT spreads a single missing value over
+            # other windows and other series.  The sliding sum is only "each series over its trailing window" when
+            # the direct method is asked for.
+            S.prove("windowed-sum-does-not-leave-the-method-to-scipy(fft-spreads-missing-values)",
+                    len(CONVOLVE_METHODS) == 2 and all(m == "direct" for m in CONVOLVE_METHODS), detail=tag)
         for name in ("obs", "fcst"):
             got = out.variables[name].value
             raw = meta[name]
